@@ -162,6 +162,7 @@ var Mutations = []struct {
 
 type exec struct {
 	last *csim.SimResult
+	next map[int]int
 }
 
 func (P) NewExec() hx.Executor { return &exec{} }
@@ -172,7 +173,7 @@ func parse(toks []string) csim.SimParams {
 		n, _ := strconv.Atoi(v)
 		return n
 	}
-	p := csim.SimParams{N: geti("n"), Steps: geti("steps"), Heights: geti("heights"), Prof: "byzprop"}
+	p := csim.SimParams{N: geti("n"), Steps: geti("steps"), Heights: geti("heights"), Prof: "byzprop", Trace: true}
 	s, _ := hx.Arg(toks, "seed")
 	p.Seed, _ = strconv.ParseInt(s, 10, 64)
 	pw, _ := hx.Arg(toks, "powers")
@@ -202,6 +203,7 @@ func (e *exec) Exec(op string) string {
 	switch toks[0] {
 	case "case":
 		e.last = nil
+		e.next = map[int]int{}
 		return "ok"
 	case "sim":
 		e.last = csim.Run(parse(toks))
@@ -213,6 +215,12 @@ func (e *exec) Exec(op string) string {
 		return c01.Diag(e.last)
 	case "hist":
 		return c01.CheckHist(toks)
+	case "ns":
+		// step-level tie with the node model (as in C01): state line + outputs of the real node after its k-th handled input
+		if e.next == nil {
+			e.next = map[int]int{}
+		}
+		return c01.NodeStep(e.last, e.next, op, toks)
 	}
 	return "bad-op"
 }
@@ -261,6 +269,7 @@ func (P) Generate(g *hx.Gen) {
 			r := csim.Run(p)
 			ops := []string{hx.CaseOp(), line, "diag"}
 			ops = append(ops, r.HistLines(p)...)
+			ops = append(ops, c01.TraceOps(g, r, g.Pick(400, 1000))...)
 			applied := 0
 			for _, m := range r.Mutations {
 				if m != "none" {
